@@ -481,6 +481,14 @@ func (w *World) Canon() string {
 	}
 	sort.Strings(bs)
 	fmt.Fprintf(&sb, "budget %v\n", bs)
+	if len(w.S.Admission) > 0 {
+		var as []string
+		for k, v := range w.S.Admission {
+			as = append(as, k.String()+"="+v)
+		}
+		sort.Strings(as)
+		fmt.Fprintf(&sb, "admission %v\n", as)
+	}
 	if w.Proc != nil {
 		var ps []string
 		for k, v := range w.Proc.seen {
